@@ -9,10 +9,15 @@ import (
 	"sort"
 	"strconv"
 	"strings"
+	"sync"
+	"time"
 
+	"google.golang.org/grpc/codes"
+	"google.golang.org/grpc/status"
 	"google.golang.org/protobuf/proto"
 
 	"github.com/smart-core-os/sc-api/go/types"
+	"github.com/smart-core-os/sc-golang/pkg/resource"
 	"github.com/smart-core-os/sc-golang/verifharness/lib"
 )
 
@@ -37,6 +42,20 @@ type scenario struct {
 	// NInit: the first NInit ids are configured as initial records (the model's WithInitial… option), the others
 	// are created through the creation API (hail: UpdateHail with resource.WithCreateIfAbsent()).
 	NInit int `json:"ninit,omitempty"`
+	// Icpt names the id interceptor of the model's collections (resource.WithIDInterceptor): "" = none, "lower",
+	// "upper" (ASCII case mapping). Items are stored under the intercepted id and keep the spelling they were written with.
+	Icpt string `json:"icpt,omitempty"`
+	// Inflight: a write that is REFUSED is in flight during every List call of the scenario (and while the unpaged
+	// listing is taken): it is started before the first call, parks inside its WithExpectedCheck callback (no lock is
+	// held there), and is released - the callback then returns an error - after the last call.
+	Inflight *guardedWrite `json:"inflight,omitempty"`
+}
+
+// guardedWrite is a write of the model carrying a WithExpectedCheck option that parks and then refuses.
+type guardedWrite struct {
+	Kind   string `json:"kind"` // update | delete | add (waste: AddWasteRecord)
+	ID     string `json:"id"`
+	Upsert bool   `json:"upsert,omitempty"` // update: resource.WithCreateIfAbsent()
 }
 
 // storeOp is one call of a creation / update / deletion API of the model.
@@ -95,6 +114,8 @@ type runResult struct {
 	coll      []string // ids present while paging according to the harness's own set oracle (insertion order)
 	ops       []string // canonical outcome of each op
 	gen       []string // add ops: the id the code reported
+	wantList  []string // the key fields in Collection.List order (by storage id) according to the set oracle
+	inflight  string   // outcome of the in-flight write: "" none, "parked+refused", "refused" (never reached the callback), …
 }
 
 func hexID(s string) string {
@@ -332,6 +353,60 @@ func runOp(inst *instance, op storeOp) (out string, got string) {
 }
 
 // run executes the scenario on the real code.
+// startInflight starts w in its own goroutine and waits until it is parked inside its expected-check callback, or
+// has returned without ever calling it. finish releases the callback (which then refuses the write) and returns
+// the write's outcome.
+func startInflight(inst *instance, w guardedWrite) (finish func() string, out string, err error) {
+	if inst.guarded == nil {
+		return nil, "", fmt.Errorf("the model takes no write options")
+	}
+	entered := make(chan struct{})
+	release := make(chan struct{})
+	done := make(chan string, 1)
+	var once sync.Once
+	opt := resource.WithExpectedCheck(func(proto.Message) error {
+		once.Do(func() { close(entered) })
+		<-release
+		return status.Error(codes.FailedPrecondition, "refused by the caller's expected check")
+	})
+	go func() {
+		var handled bool
+		var e error
+		p, msg := lib.Catch(func() { handled, e = inst.guarded(w.Kind, w.ID, w.Upsert, opt) })
+		switch {
+		case p:
+			done <- "panic:" + msg
+		case !handled:
+			done <- "unsupported"
+		case e == nil:
+			done <- "accepted"
+		default:
+			done <- "refused"
+		}
+	}()
+	select {
+	case <-entered:
+		return func() string {
+			close(release)
+			select {
+			case o := <-done:
+				return o
+			case <-time.After(10 * time.Second):
+				return "stuck"
+			}
+		}, "parked", nil
+	case o := <-done:
+		close(release)
+		if o == "unsupported" {
+			return nil, "", fmt.Errorf("no guarded %q write on this model", w.Kind)
+		}
+		return func() string { return o }, o, nil
+	case <-time.After(10 * time.Second):
+		close(release)
+		return nil, "", fmt.Errorf("the in-flight write neither reached its callback nor returned")
+	}
+}
+
 func (sc scenario) run() (res runResult, err error) {
 	r, ok := rpcByName(sc.RPC)
 	if !ok {
@@ -341,7 +416,7 @@ func (sc scenario) run() (res runResult, err error) {
 	if sc.NInit < 0 || sc.NInit > len(sc.IDs) {
 		return res, fmt.Errorf("ninit %d out of range", sc.NInit)
 	}
-	panicked, msg := lib.Catch(func() { inst, err = r.build(r, sc.IDs, sc.NInit) })
+	panicked, msg := lib.Catch(func() { inst, err = r.build(r, sc.IDs, sc.NInit, icptOpts(sc.Icpt)) })
 	if panicked {
 		return res, fmt.Errorf("building the collection panicked: %s", msg)
 	}
@@ -354,15 +429,21 @@ func (sc scenario) run() (res runResult, err error) {
 		}
 	}
 	res.base = sc.collection()
-	// the harness's own set oracle (insertion order)
-	present := append([]string(nil), res.base...)
-	has := func(id string) bool {
-		for _, x := range present {
-			if x == id {
-				return true
+	// the harness's own set oracle: storage id (the id as the interceptor maps it) -> key field as last written,
+	// in insertion order
+	norm := icptFn(sc.Icpt)
+	type entry struct{ sid, field string }
+	var entries []entry
+	for _, id := range res.base {
+		entries = append(entries, entry{norm(id), id})
+	}
+	find := func(id string) int {
+		for i, x := range entries {
+			if x.sid == norm(id) {
+				return i
 			}
 		}
-		return false
+		return -1
 	}
 	for _, op := range sc.Ops {
 		out, got := runOp(inst, op)
@@ -380,29 +461,61 @@ func (sc scenario) run() (res runResult, err error) {
 					continue
 				}
 			}
-			if !has(id) {
-				present = append(present, id)
+			if find(id) < 0 {
+				entries = append(entries, entry{norm(id), id})
 			}
 		case "ensure":
-			if op.ID != "" && !has(op.ID) {
-				present = append(present, op.ID)
+			if op.ID == "" {
+				continue
+			}
+			if i := find(op.ID); i < 0 {
+				entries = append(entries, entry{norm(op.ID), op.ID})
+			} else if op.Alt {
+				entries[i].field = op.ID // AddChildTrait writes {Name: name}: an existing child is re-spelled
 			}
 		case "update":
-			// an update never renames an item, whatever id the written message carries; with create-if-absent it
-			// creates the item under ID (the empty id names no item)
-			if op.Upsert && op.ID != "" && !has(op.ID) {
-				present = append(present, op.ID)
+			// an update never moves an item, whatever id the written message carries; with create-if-absent it
+			// creates the item under ID (the empty id names no item); the key field is always written: the item
+			// now carries the spelling ID
+			if op.ID == "" {
+				continue
+			}
+			if i := find(op.ID); i >= 0 {
+				if strings.HasPrefix(out, "ok") {
+					entries[i].field = op.ID
+				}
+			} else if op.Upsert {
+				entries = append(entries, entry{norm(op.ID), op.ID})
 			}
 		case "delete":
-			for i, x := range present {
-				if x == op.ID {
-					present = append(present[:i:i], present[i+1:]...)
-					break
-				}
+			if i := find(op.ID); i >= 0 {
+				entries = append(entries[:i:i], entries[i+1:]...)
 			}
 		}
 	}
+	var present []string
+	for _, e := range entries {
+		present = append(present, e.field)
+	}
+	bySid := append([]entry(nil), entries...)
+	sort.SliceStable(bySid, func(i, j int) bool { return bySid[i].sid < bySid[j].sid })
+	for _, e := range bySid {
+		res.wantList = append(res.wantList, e.field)
+	}
 	res.coll = present
+	if sc.Inflight != nil {
+		finish, out, e := startInflight(inst, *sc.Inflight)
+		if e != nil {
+			return res, e
+		}
+		res.inflight = out
+		defer func() {
+			if res.inflight == "parked" {
+				res.inflight = "parked+" + finish()
+			}
+			res.fullAfter = inst.all()
+		}()
+	}
 	res.full = inst.all()
 	idx := map[string]int{}
 	if r.Variant == "waste" {
@@ -473,6 +586,11 @@ func (sc scenario) driverLines(variant string, res runResult) []modelQ {
 		return modelQ{fmt.Sprintf("page %s %d %s %d", variant, c.Size, c.Tok, vis), c.Out, key, fmt.Sprintf("%s %d", where, i)}
 	}
 	if variant != "waste" {
+		icpt := sc.Icpt
+		if icpt == "" {
+			icpt = "id"
+		}
+		qs = append(qs, modelQ{Line: "icpt " + icpt})
 		if len(sc.IDs) <= 8 {
 			// the construction itself, route by route: initial records, then the creation API, then the deletions
 			qs = append(qs, modelQ{Line: "keys -"})
@@ -499,6 +617,11 @@ func (sc scenario) driverLines(variant string, res runResult) []modelQ {
 		for i, op := range sc.Ops {
 			line := "sop " + op.Kind + " " + hexID(op.ID)
 			switch op.Kind {
+			case "ensure":
+				if op.Alt {
+					// AddChildTrait(name) is Update(name, {Name: name}, WithCreateIfAbsent())
+					line = "sop updm " + hexID(op.ID) + " 1 n"
+				}
 			case "delete":
 				if op.AllowMissing {
 					line += " 1"
@@ -587,8 +710,16 @@ func (sc scenario) monitor(m *lib.Monitor, variant string, res runResult) {
 			return
 		}
 	}
-	if strings.Join(full, "\x00") != strings.Join(want, "\x00") || len(full) != len(want) {
-		m.Violate(pre+"full-list", "the model's unpaged listing is not the collection in listing order", sc, fmt.Sprintf("%q", want), fmt.Sprintf("%q", full))
+	wantFull := want
+	if variant != "waste" {
+		wantFull = res.wantList // Collection.List: by storage id (the intercepted id), each item in its own spelling
+	}
+	if strings.Join(full, "\x00") != strings.Join(wantFull, "\x00") || len(full) != len(wantFull) {
+		m.Violate(pre+"full-list", "the model's unpaged listing is not the collection in listing order", sc, fmt.Sprintf("%q", wantFull), fmt.Sprintf("%q", full))
+		return
+	}
+	if res.inflight == "parked+accepted" || res.inflight == "accepted" || strings.Contains(res.inflight, "panic") || strings.Contains(res.inflight, "stuck") {
+		m.Violate(pre+"inflight-write", "a write whose expected check refuses it did not end with an error", sc, "refused", res.inflight)
 		return
 	}
 	for i, c := range res.warm {
@@ -725,6 +856,12 @@ func (sc scenario) summary() map[string]any {
 	}
 	if sc.NInit > 0 {
 		out["ninit"] = sc.NInit
+	}
+	if sc.Icpt != "" {
+		out["icpt"] = sc.Icpt
+	}
+	if sc.Inflight != nil {
+		out["inflight"] = sc.Inflight
 	}
 	return out
 }
